@@ -22,7 +22,7 @@ func init() { cmds["C13"] = runC13 }
 
 // answers of a trusted peer to a single-header request for main:60
 var c13Alphabet = []string{
-	"valid", "other:61", "otherfork:60", "wrongchain", "nochain", "invalid", "garbage", "truncated", "oversized",
+	"valid", "other:61", "otherfork:60", "wrongchain", "nochain", "invalid", "panicdecode", "panicvalidate", "garbage", "truncated", "oversized",
 	"status", "emptybody", "empty", "notfound", "reset", "hang",
 }
 
@@ -40,6 +40,10 @@ func (e *p2pEnv) getReply(a string) peers.Reply {
 		return peers.Reply{Kind: "ok", Headers: []*vhdr.Header{{Chain: "B", H: 60, T: want.T, Prev: want.Prev}}}
 	case a == "nochain": // decodes and validates, but carries no chain id at all
 		return peers.Reply{Kind: "ok", Headers: []*vhdr.Header{{Chain: "", H: 60, T: want.T, Prev: want.Prev, NC: true}}}
+	case a == "panicdecode": // a body on which the header type's decoder panics
+		return peers.Reply{Kind: "garbage", Raw: peers.FrameResp(&p2p_pb.HeaderResponse{Body: vhdr.PanicBytes, StatusCode: p2p_pb.StatusCode_OK})}
+	case a == "panicvalidate": // decodes, but the header type's Validate panics on it
+		return peers.Reply{Kind: "ok", Headers: []*vhdr.Header{{Chain: "A", H: 60, T: want.T, Prev: want.Prev, PV: true}}}
 	case a == "invalid":
 		return peers.Reply{Kind: "ok", Headers: []*vhdr.Header{{Chain: "A", H: 60, T: want.T, Bad: true}}}
 	case a == "garbage":
